@@ -60,28 +60,37 @@ func (s *recStore) SetPeerSet(r int, ps *peers.PeerSet) error {
 	return s.Store.SetPeerSet(r, ps)
 }
 
+func (s *recStore) Reset(f *hg.Frame) error {
+	raw, _ := f.Marshal()
+	*s.ops = append(*s.ops, StoreOp{K: "reset", Data: jsonWrap(raw)})
+	return s.Store.Reset(f)
+}
+
 func jsonWrap(raw []byte) json.RawMessage { return json.RawMessage(bytes.TrimSpace(raw)) }
 
 // ---------------------------------------------------------------------------
 // model
 
 type storeModel struct {
-	events   map[string][]byte   // hex → persisted JSON
-	evOrder  []string            // first-store order
-	part     map[string][]string // creator → hashes by index
-	partIdx  map[string]map[int]string
-	topo     map[int]string
-	rounds   map[int][]byte
-	blocks   map[int][]byte
-	frames   map[int][]byte
-	peersets map[int][]string
-	reper    map[string]bool
-	lastBlk  int
+	events     map[string][]byte   // hex → persisted JSON
+	evOrder    []string            // first-store order
+	part       map[string][]string // creator → hashes by index
+	partIdx    map[string]map[int]string
+	topo       map[int]string
+	rounds     map[int][]byte
+	blocks     map[int][]byte
+	frames     map[int][]byte
+	peersets   map[int][]string
+	reper      map[string]bool
+	lastBlk    int
+	roots      map[string][]byte // participant → persisted root (set by Reset; empty root for participants added by SetPeerSet)
+	reset      bool              // the store was reset from a frame (listings are no longer complete by design)
+	resetKnown bool
 }
 
 func newModel() *storeModel {
 	return &storeModel{events: map[string][]byte{}, part: map[string][]string{}, partIdx: map[string]map[int]string{}, topo: map[int]string{},
-		rounds: map[int][]byte{}, blocks: map[int][]byte{}, frames: map[int][]byte{}, peersets: map[int][]string{}, reper: map[string]bool{}, lastBlk: -1}
+		rounds: map[int][]byte{}, blocks: map[int][]byte{}, frames: map[int][]byte{}, peersets: map[int][]string{}, reper: map[string]bool{}, lastBlk: -1, roots: map[string][]byte{}}
 }
 
 type wrapperView struct {
@@ -152,6 +161,28 @@ func applyOp(st hg.Store, m *storeModel, op StoreOp) error {
 			return fmt.Errorf("SetFrame: %v", err)
 		}
 		m.frames[f.Round] = op.Data
+	case "reset":
+		f := new(hg.Frame)
+		if err := f.Unmarshal(op.Data); err != nil {
+			return fmt.Errorf("harness: bad recorded frame: %v", err)
+		}
+		if err := st.Reset(f); err != nil {
+			return fmt.Errorf("Reset: %v", err)
+		}
+		m.reset = true
+		m.frames[f.Round] = op.Data
+		ks := []string{}
+		for _, p := range f.Peers {
+			ks = append(ks, p.PubKeyString())
+		}
+		m.peersets[f.Round] = ks
+		for p, r := range f.Roots {
+			raw, _ := r.Marshal()
+			m.roots[p] = raw
+		}
+		// in-memory caches start afresh
+		m.partIdx = map[string]map[int]string{}
+		m.resetKnown = true
 	case "peerset":
 		cp := make([]*peers.Peer, len(op.Peers))
 		ks := []string{}
@@ -159,6 +190,10 @@ func applyOp(st hg.Store, m *storeModel, op StoreOp) error {
 			cp[i] = peers.NewPeer(p.PubKeyHex, p.NetAddr, p.Moniker)
 			ks = append(ks, p.PubKeyString())
 			m.reper[p.PubKeyString()] = true
+			if _, ok := m.roots[p.PubKeyString()]; !ok {
+				raw, _ := hg.NewRoot().Marshal()
+				m.roots[p.PubKeyString()] = raw
+			}
 		}
 		if err := st.SetPeerSet(op.Round, peers.NewPeerSet(cp)); err != nil {
 			return fmt.Errorf("SetPeerSet: %v", err)
@@ -208,8 +243,8 @@ func battery(st *hg.BadgerStore, m *storeModel, durableOnly bool, reads *int) st
 			full = append(full, h)
 		}
 		for _, skip := range []int{-1, 0, max / 2, max - 1, max} {
-			if skip < -1 {
-				continue
+			if skip < -1 || m.reset {
+				continue // (after a reset from a frame the listings do not start at index 0: outside the clause)
 			}
 			*reads++
 			got, err := st.ParticipantEvents(c, skip)
@@ -222,6 +257,16 @@ func battery(st *hg.BadgerStore, m *storeModel, durableOnly bool, reads *int) st
 			}
 			if strings.Join(got, ",") != strings.Join(want, ",") {
 				return fmt.Sprintf("ParticipantEvents(%s…, %d) has %d entries, expected %d (every stored event once, in order, no gaps)", c[:8], skip, len(got), len(want))
+			}
+		}
+		if m.reset {
+			full = nil
+			for i, h := range byIdx {
+				*reads++
+				got, err := st.ParticipantEvent(c, i)
+				if err != nil || got != h {
+					return fmt.Sprintf("ParticipantEvent(%s…, %d) = %q / %v, expected %s", c[:8], i, got, err, h[:10])
+				}
 			}
 		}
 		for i, h := range full {
@@ -244,7 +289,7 @@ func battery(st *hg.BadgerStore, m *storeModel, durableOnly bool, reads *int) st
 			}
 		}
 	}
-	if !durableOnly {
+	if !durableOnly && !m.reset {
 		known := st.KnownEvents()
 		rep := st.RepertoireByPubKey()
 		for c, byIdx := range m.partIdx {
@@ -264,23 +309,30 @@ func battery(st *hg.BadgerStore, m *storeModel, durableOnly bool, reads *int) st
 			}
 		}
 	}
-	// topological listing: every stored event exactly once, in order, no gaps
-	idxs := []int{}
-	for i := range m.topo {
-		idxs = append(idxs, i)
-	}
-	sort.Ints(idxs)
-	*reads++
-	tl, err := st.VDbTopologicalEvents(0, len(idxs)+10)
-	if err != nil {
-		return fmt.Sprintf("topological listing: %v", err)
-	}
-	if len(tl) != len(idxs) {
-		return fmt.Sprintf("topological listing has %d events, %d were stored (gap at the first missing index)", len(tl), len(idxs))
-	}
-	for k, e := range tl {
-		if e.Hex() != m.topo[idxs[k]] {
-			return fmt.Sprintf("topological listing position %d holds %s, expected %s", k, e.Hex()[:10], m.topo[idxs[k]][:10])
+	if !m.reset {
+		if d := func() string {
+			// topological listing: every stored event exactly once, in order, no gaps (stores that were not reset)
+			idxs := []int{}
+			for i := range m.topo {
+				idxs = append(idxs, i)
+			}
+			sort.Ints(idxs)
+			*reads++
+			tl, err := st.VDbTopologicalEvents(0, len(idxs)+10)
+			if err != nil {
+				return fmt.Sprintf("topological listing: %v", err)
+			}
+			if len(tl) != len(idxs) {
+				return fmt.Sprintf("topological listing has %d events, %d were stored (gap at the first missing index)", len(tl), len(idxs))
+			}
+			for k, e := range tl {
+				if e.Hex() != m.topo[idxs[k]] {
+					return fmt.Sprintf("topological listing position %d holds %s, expected %s", k, e.Hex()[:10], m.topo[idxs[k]][:10])
+				}
+			}
+			return ""
+		}(); d != "" {
+			return d
 		}
 	}
 	for r, want := range m.rounds {
@@ -347,11 +399,32 @@ func battery(st *hg.BadgerStore, m *storeModel, durableOnly bool, reads *int) st
 		if _, ok := rep[k]; !ok {
 			return fmt.Sprintf("database repertoire lacks %s…", k[:8])
 		}
-		if _, err := st.GetRoot(k); err != nil {
+		r, err := st.GetRoot(k)
+		if err != nil {
 			return fmt.Sprintf("GetRoot(%s…): %v", k[:8], err)
+		}
+		if want, ok := m.roots[k]; ok {
+			if got, _ := r.Marshal(); canon(got) != canon(want) {
+				return fmt.Sprintf("GetRoot(%s…) has %d events, the root that was stored has %d", k[:8], len(r.Events), rootLen(want))
+			}
+			dr, err := st.VDbGetRoot(k)
+			if err != nil {
+				return fmt.Sprintf("database root of %s…: %v", k[:8], err)
+			}
+			if got, _ := dr.Marshal(); canon(got) != canon(want) {
+				return fmt.Sprintf("database root of %s… has %d events, the root that was stored has %d", k[:8], len(dr.Events), rootLen(want))
+			}
 		}
 	}
 	return ""
+}
+
+func rootLen(raw []byte) int {
+	r := new(hg.Root)
+	if err := r.Unmarshal(raw); err != nil {
+		return -1
+	}
+	return len(r.Events)
 }
 
 func trunc(s string) string {
@@ -384,10 +457,15 @@ type StoreResult struct {
 }
 
 func recordOps(source string) []StoreOp {
+	node := 0
+	if i := strings.Index(source, "@"); i > 0 && strings.HasPrefix(source, "node") {
+		node = atoi(source[4:i])
+		source = source[i+1:]
+	}
 	sc := sched.ScenarioByName(source)
 	var ops []StoreOp
 	sc.Cfg.WrapStore = func(idx int, s hg.Store) hg.Store {
-		if idx != 0 {
+		if idx != node {
 			return s
 		}
 		return &recStore{Store: s, ops: &ops}
@@ -633,7 +711,8 @@ func init() {
 		th := ev.Tier() == "thorough"
 		rep := ev.NewReport("C16", "model_checking")
 		var items []StoreItem
-		sources := []string{scStatic3, scJoin3}
+		// the third history is that of a joiner that fast-forwards (Reset from a frame) and then sees another join
+		sources := []string{scStatic3, scJoin3, "node3@ffjoin:3:5:110:44:0:1"}
 		caches := []int{2, 4, 10, 100, 10000}
 		for _, s := range sources {
 			for _, c := range caches {
@@ -651,6 +730,9 @@ func init() {
 				step = 5
 				if s != scStatic3 {
 					step = 25
+				}
+				if strings.HasPrefix(s, "node3@") {
+					step = 12
 				}
 			}
 			var chunk []int
@@ -724,7 +806,7 @@ func init() {
 		cov["counters"] = tot.Ctr
 		cov["exhaustive"] = handed == len(items)
 		cov["samples"] = []interface{}{tot.Sample}
-		cov["rule"] = fmt.Sprintf("(a) the exact Store write sequences of node 0 in the static3 and join3to4 E1 seeds (values snapshotted in persisted form at call time) replayed on a real BadgerStore with cache sizes 2,4,10,100,10000 against a map/list model, with the complete read battery (GetEvent + database copy, ParticipantEvents from several skips, ParticipantEvent for every index, LastEventFrom, KnownEvents, topological listing, rounds, blocks, frames, peer sets, repertoire, roots) after writes, and close+reopen after every write position (one run per position, database-backed reads only); (b) all sequences of depth %d over the direct alphabet {event p0, event p1, update last event of p0, block 0 / block 1 with growing signatures, round update, frame, close+reopen} with cache 2. states = sequences + distinct direct operation strings", depth)
+		cov["rule"] = fmt.Sprintf("(a) the exact Store write sequences of node 0 in the static3 and join3to4 E1 seeds and of a joiner that fast-forwards (Reset from a frame, then a further validator-set change) (values snapshotted in persisted form at call time) replayed on a real BadgerStore with cache sizes 2,4,10,100,10000 against a map/list model, with the complete read battery (GetEvent + database copy, ParticipantEvents from several skips, ParticipantEvent for every index, LastEventFrom, KnownEvents, topological listing, rounds, blocks, frames, peer sets, repertoire, roots with their content) after writes, and close+reopen after every write position (one run per position, database-backed reads only); (b) all sequences of depth %d over the direct alphabet {event p0, event p1, update last event of p0, block 0 / block 1 with growing signatures, round update, frame, close+reopen} with cache 2. states = sequences + distinct direct operation strings", depth)
 		rep.Assumptions = []string{"'value' = the persisted representation (body, signature, wire ids, topological index, coordinates); in-memory memo fields that MarshalDB omits by design are not compared", "after a reopen without bootstrap only database-backed reads are defined"}
 		return rep.Finish()
 	}
